@@ -33,7 +33,7 @@ pub const RULESETS: &[&str] = &[
     "CP01,CP02,CP03,CP04,CP05",
     "AL01,AL02,AL05,AL07,AL09,ST01,ST02,ST03,ST05,ST06,ST08",
     "LT01,LT02,CP01,AL01",
-    "CV01,CV02,CV03,CV04,CV05,CV06,CV07,CV10,CV11,RF03,RF06,ST07,ST09,JJ01",
+    "CV01,CV02,CV03,CV04,CV05,CV06,CV07,CV10,CV11,RF03,RF06,ST07,ST09",
     "LT01",
     "LT02,LT12,CP01",
 ];
